@@ -527,7 +527,7 @@ def run_case(ctx):
                 want_c = c0 * (n0 / abs(c0))
             new = Obj(cp, ref, "mps", a.trace[-3:] + [f"normalize({nk})"])
             ctx.count("oracle")
-            ctx.check(abs(complex(cp.coeff) - want_c) <= (1e-9 + rep_floor(a.mp) / n0) * abs(want_c), "normalize|prefactor-differs-from-documented|" + nk,
+            ctx.check(abs(complex(cp.coeff) - want_c) <= (1e-9 + (rep_floor(a.mp) + 1e-10 * escale(a)) / n0) * abs(want_c), "normalize|prefactor-differs-from-documented|" + nk,
                       got=complex(cp.coeff), want=want_c)
             # (the norm is computed from the representation: its rounding floor, rescaled like the vector, enters the tolerance)
             nref = max(float(np.linalg.norm(ref)), 1e-300)
